@@ -75,6 +75,15 @@ def assemble : List Field → List Val → List (Nat × Val) → Nat → List Va
       | [] => f.ty.dflt :: assemble fs [] acc (i + 1)
     | some _ => ((lookupIdx i acc).getD f.ty.dflt) :: assemble fs pvals acc (i + 1)
 
+/-- `Vec<T>::serialize_tagged`: every element tagged on its own. -/
+def serListWith (f : Val → Res Bytes) : List Val → Res Bytes
+  | [] => .ok []
+  | v :: vs =>
+    match f v, serListWith f vs with
+    | .ok a, .ok b => .ok (a ++ b)
+    | .error e, _ => .error e
+    | _, .error e => .error e
+
 mutual
 /-- `<ty as ZvtSerializerImpl<L, E>>::serialize_tagged(value, tag)` with the default tag encoding. -/
 def Ty.ser : Ty → LenKind → Enc → Option Nat → Val → Res Bytes
@@ -85,7 +94,7 @@ def Ty.ser : Ty → LenKind → Enc → Option Nat → Val → Res Bytes
     | _ => .error (.panic "ill-typed")
   | .vec t, L, E, tag, v =>
     match v with
-    | .vec vs => serList t L E tag vs
+    | .vec vs => serListWith (fun x => Ty.ser t L E tag x) vs
     | _ => .error (.panic "ill-typed")
   | .bytes, L, E, tag, v =>
     match v with
@@ -98,14 +107,7 @@ def Ty.ser : Ty → LenKind → Enc → Option Nat → Val → Res Bytes
   | .int w, L, E, tag, v => serTagged tagEncDefault L tag (leafEnc E (.int w) v)
   | .str, L, E, tag, v => serTagged tagEncDefault L tag (leafEnc E .str v)
   | .dateTime, L, E, tag, v => serTagged tagEncDefault L tag (leafEnc E .dateTime v)
-/-- `Vec<T>::serialize_tagged`: every element tagged on its own. -/
-def serList : Ty → LenKind → Enc → Option Nat → List Val → Res Bytes
-  | _, _, _, _, [] => .ok []
-  | t, L, E, tag, v :: vs =>
-    match Ty.ser t L E tag v, serList t L E tag vs with
-    | .ok a, .ok b => .ok (a ++ b)
-    | .error e, _ => .error e
-    | _, .error e => .error e
+termination_by structural t => t
 /-- the generated `encode`: all fields in declaration order. -/
 def encFields : List Field → List Val → Res Bytes
   | [], _ => .ok []
@@ -115,7 +117,21 @@ def encFields : List Field → List Val → Res Bytes
     | .error e, _ => .error e
     | _, .error e => .error e
   | _ :: _, [] => .error (.panic "ill-typed")
+termination_by structural fs => fs
 end
+
+/-- the generated `decode`, parametrised by the decoders of the positional prefix and of the tagged arms. -/
+def decStructWith (decPosF : Bytes → Res (List Val × Bytes))
+    (arm : Nat → Bytes → Option (Nat × Res (Val × Bytes))) (fs : List Field) (b : Bytes) : Res (Val × Bytes) :=
+  match decPosF b with
+  | .error e => .error e
+  | .ok (pvals, rest) =>
+    match tagLoop arm (rest.length + 2) (rest.length + 1) rest [] [] with
+    | .error e => .error e
+    | .ok (acc, seen, rest') =>
+      let missing := sortDedup ((requiredTags fs).filter (fun t => ! seen.contains t))
+      if missing.isEmpty then .ok (.struct (assemble fs pvals acc 0), rest')
+      else .error (.missing missing)
 
 mutual
 /-- `<ty as ZvtSerializerImpl<L, E>>::deserialize_tagged(bytes, tag)`. -/
@@ -131,23 +147,13 @@ def Ty.de : Ty → LenKind → Enc → Option Nat → Bytes → Res (Val × Byte
       | .error e => if e.isPanic then .error e else .ok (.none, b)
       | .ok (v, r) => .ok (.some v, r)
   | .vec t, L, E, tag, b => vecLoop (fun x => Ty.de t L E tag x) (b.length + 1) b []
-  | .struct fs, L, _, tag, b => deserTagged tagDecDefault L (fun p => decStruct fs p) tag b
+  | .struct fs, L, _, tag, b =>
+    deserTagged tagDecDefault L (fun p => decStructWith (fun x => decPos fs x) (fun t x => armFind fs t 0 x) fs p) tag b
   | .bytes, L, E, tag, b => deserTagged tagDecDefault L (leafDec E .bytes) tag b
   | .int w, L, E, tag, b => deserTagged tagDecDefault L (leafDec E (.int w)) tag b
   | .str, L, E, tag, b => deserTagged tagDecDefault L (leafDec E .str) tag b
   | .dateTime, L, E, tag, b => deserTagged tagDecDefault L (leafDec E .dateTime) tag b
-/-- the generated `decode`. -/
-def decStruct : List Field → Bytes → Res (Val × Bytes)
-  | fs, b =>
-    match decPos fs b with
-    | .error e => .error e
-    | .ok (pvals, rest) =>
-      match tagLoop (fun t x => armFind fs t 0 x) (rest.length + 2) (rest.length + 1) rest [] [] with
-      | .error e => .error e
-      | .ok (acc, seen, rest') =>
-        let missing := sortDedup ((requiredTags fs).filter (fun t => ! seen.contains t))
-        if missing.isEmpty then .ok (.struct (assemble fs pvals acc 0), rest')
-        else .error (.missing missing)
+termination_by structural t => t
 /-- the positional (un-numbered) fields, in declaration order, whatever lies between them. -/
 def decPos : List Field → Bytes → Res (List Val × Bytes)
   | [], b => .ok ([], b)
@@ -161,12 +167,18 @@ def decPos : List Field → Bytes → Res (List Val × Bytes)
         match decPos fs r with
         | .error e => .error e
         | .ok (vs, r') => .ok (v :: vs, r')
+termination_by structural fs => fs
 /-- the `match tag.0 { … }` arms: first field whose number is `t`. -/
 def armFind : List Field → Nat → Nat → Bytes → Option (Nat × Res (Val × Bytes))
   | [], _, _, _ => none
   | .mk _ tag L E ty :: fs, t, i, b =>
     if tag = some t then some (i, Ty.de ty L E (some t) b) else armFind fs t (i + 1) b
+termination_by structural fs => fs
 end
+
+/-- the generated `decode` of a struct. -/
+def decStruct (fs : List Field) (b : Bytes) : Res (Val × Bytes) :=
+  decStructWith (fun x => decPos fs x) (fun t x => armFind fs t 0 x) fs b
 
 /-! ### Packets and commands -/
 
